@@ -81,12 +81,13 @@ def tr2Core (p : Prog) : Except TrErr CProg := do
     | some b => trNested acc.te true 0 b
   pure { globals := acc.globals.reverse, setup := seqOf acc.setup.reverse, loop := loop }
 
-def tr2 (p : Prog) : Except TrErr CProg := if p.numbered then tr2Core p else .error .outsideFragment
+def tr2 (p : Prog) : Except TrErr CProg := if p.numbered then withHelpers p (tr2Core p) else .error .outsideFragment
 
-theorem tr2_ok {p : Prog} {c : CProg} (h : tr2 p = .ok c) : p.numbered = true ∧ tr2Core p = .ok c := by
+theorem tr2_ok {p : Prog} {c : CProg} (h : tr2 p = .ok c) :
+    p.numbered = true ∧ ∃ c0 hs, tr2Core p = .ok c0 ∧ c = { c0 with helpers := hs } := by
   unfold tr2 at h
   split at h
-  · exact ⟨‹_›, h⟩
+  · exact ⟨‹_›, withHelpers_ok h⟩
   · cases h
 
 /-! ### the fragment on which `tr2` is proved correct -/
@@ -134,7 +135,7 @@ def Stmt.okTop2 (all : List String) (te : C.TyEnv) : Stmt → Option C.TyEnv
   | s => if s.okNested all te then some te else none
 
 def InF2 (p : Prog) : Bool :=
-  let all := p.pre.assigned ++ (match p.body with | some b => b.assigned | none => [])
+  let all := p.pre.assigned ++ (match p.body with | some b => b.assigned | none => []) ++ p.helpers.flatMap (·.body.assigned)
   match p.pre.okTop2 all [] with
   | none => false
   | some te => match p.body with
